@@ -7,6 +7,7 @@ import (
 	"flag"
 	"fmt"
 	"math/rand"
+	"reflect"
 	"runtime"
 	"sort"
 	"strings"
@@ -14,9 +15,9 @@ import (
 	"sync/atomic"
 
 	"github.com/goghcrow/go-co/seq"
-	gens "scratch/schedmon/out/gens"
-	"scratch/schedmon/mon"
 	"scratch/plib"
+	"scratch/schedmon/mon"
+	gens "scratch/schedmon/out/gens"
 )
 
 type it interface {
@@ -60,6 +61,78 @@ var kinds = []kind{
 	{"NestedLiteral", func(l *mon.Log) it { return gens.NestedLiteral(l) }},
 	{"Chain", func(l *mon.Log) it { return gens.Chain(l, 3) }},
 	{"rawTerm", rawTerm},
+	// ONE generic generator at many element types (interfaces first: their zero values are all nil)
+	{"Each[any]", func(l *mon.Log) it {
+		return adapt[any](gens.Each(l, []any{1, "x", 3.5, nil, 5}), func(v any) int { return len(fmt.Sprint(v)) })
+	}},
+	{"Each[error]", func(l *mon.Log) it {
+		return adapt[error](gens.Each(l, []error{errN(7), nil, errN(9), errN(11), nil}), func(e error) int {
+			if e == nil {
+				return -1
+			}
+			return int(e.(errN))
+		})
+	}},
+	{"Each[Stringer]", func(l *mon.Log) it {
+		return adapt[fmt.Stringer](gens.Each(l, []fmt.Stringer{errN(1), errN(2), errN(3), errN(4)}), func(s fmt.Stringer) int { return len(s.String()) + 100 })
+	}},
+	{"Each[*Tree]", func(l *mon.Log) it {
+		return adapt[*mon.Tree](gens.Each(l, []*mon.Tree{mon.MkTree(0, 3), nil, mon.MkTree(4, 5), nil}), func(t *mon.Tree) int {
+			if t == nil {
+				return -7
+			}
+			return t.V
+		})
+	}},
+	{"Each[func]", func(l *mon.Log) it {
+		return adapt[func() int](gens.Each(l, []func() int{func() int { return 41 }, nil, func() int { return 43 }, func() int { return 44 }}), func(f func() int) int { return f() })
+	}},
+	{"Each[[]int]", func(l *mon.Log) it {
+		return adapt[[]int](gens.Each(l, [][]int{{1, 2}, nil, {3}, {}}), func(x []int) int { return len(x) + 200 })
+	}},
+	{"Each[struct]", func(l *mon.Log) it {
+		return adapt[struct{ A, B int }](gens.Each(l, []struct{ A, B int }{{1, 2}, {3, 4}, {5, 6}, {7, 8}, {9, 10}, {11, 12}}), func(x struct{ A, B int }) int { return x.A*100 + x.B })
+	}},
+	{"Each[int8]", func(l *mon.Log) it {
+		return adapt[int8](gens.Each(l, []int8{-1, 2, -3}), func(x int8) int { return int(x) })
+	}},
+	{"Each[string]", func(l *mon.Log) it {
+		return adapt[string](gens.Each(l, []string{"a", "bb", "ccc", "dddd"}), func(x string) int { return len(x) + 300 })
+	}},
+}
+
+type errN int
+
+func (e errN) Error() string  { return fmt.Sprintf("err%d", int(e)) }
+func (e errN) String() string { return strings.Repeat("s", int(e)) }
+
+type adapter[T any] struct {
+	g interface {
+		MoveNext() bool
+		Current() T
+	}
+	f func(T) int
+	// the value is converted when the advance succeeded (Current of an exhausted iterator is the zero value)
+	ok bool
+}
+
+func (a *adapter[T]) MoveNext() bool { a.ok = a.g.MoveNext(); return a.ok }
+func (a *adapter[T]) Current() int {
+	if !a.ok {
+		cur := a.g.Current()
+		if !reflect.ValueOf(&cur).Elem().IsZero() {
+			return -99999 // Current after exhaustion / before start must be the zero value
+		}
+		return 0
+	}
+	return a.f(a.g.Current())
+}
+
+func adapt[T any](g interface {
+	MoveNext() bool
+	Current() T
+}, f func(T) int) it {
+	return &adapter[T]{g: g, f: f}
 }
 
 // one advance of an iterator, recorded in its own record
@@ -69,10 +142,19 @@ func advance(g it, l *mon.Log, rec *[]string) {
 	l.Ev = l.Ev[:0]
 }
 
-func solo(k kind, m int) []string {
+func solo(k kind, m int) (rec []string) {
+	defer func() {
+		// the generators of the workload are closed and never panic by construction: a panic of an iterator that
+		// runs ALONE (after iterators of other kinds have run in this process) is cross-iterator influence
+		if p := recover(); p != nil {
+			res.Violate("solo:"+k.name, "solo-run-panicked", fmt.Sprintf("a %s iterator consumed alone (after iterators of the kinds listed before it had run in the same process) panicked after %d advances: %v", k.name, len(rec), p), map[string]any{"probe": "schedmon", "only": "solo:" + k.name})
+			for len(rec) < m {
+				rec = append(rec, fmt.Sprintf("PANIC %v", p))
+			}
+		}
+	}()
 	l := &mon.Log{}
 	g := k.mk(l)
-	var rec []string
 	for i := 0; i < m; i++ {
 		advance(g, l, &rec)
 	}
@@ -116,7 +198,14 @@ func runSchedule(ks []kind, m int, sched []int, solos map[string][]string) {
 		its[i] = k.mk(logs[i])
 	}
 	for _, i := range sched {
-		advance(its[i], logs[i], &recs[i])
+		func() {
+			defer func() {
+				if p := recover(); p != nil {
+					recs[i] = append(recs[i], fmt.Sprintf("PANIC %v", p))
+				}
+			}()
+			advance(its[i], logs[i], &recs[i])
+		}()
 	}
 	res.Eval(1)
 	for i, k := range ks {
@@ -208,8 +297,142 @@ func deterministic(rng *rand.Rand) {
 			}
 		}()
 	}
-	res.DistinctN(n + n3 + n4)
+	nsp := spawnScenarios()
+	res.Count("spawn_orders_checked", nsp)
+	res.DistinctN(n + n3 + n4 + nsp)
 	res.Sample(map[string]any{"kind": "Walk", "solo_record": solos["Walk"]})
+}
+
+// spawnScenarios: parents that yield child generators capturing the variables of their range loop. The children
+// are consumed (a) each at once, (b) after the parent finished, in order, (c) in reverse order, (d) round-robin one
+// advance at a time while the parent is advanced in between. Every child's record must be the same in all orders.
+func spawnScenarios() int {
+	type parent struct {
+		name string
+		mk   func(l *mon.Log) interface {
+			MoveNext() bool
+			Current() seq.Iterator[int]
+		}
+	}
+	parents := []parent{
+		{"SpawnInt", func(l *mon.Log) interface {
+			MoveNext() bool
+			Current() seq.Iterator[int]
+		} {
+			return gens.SpawnInt(l, 4)
+		}},
+		{"SpawnSlice", func(l *mon.Log) interface {
+			MoveNext() bool
+			Current() seq.Iterator[int]
+		} {
+			return gens.SpawnSlice(l, []int{5, 6, 7})
+		}},
+		{"SpawnString", func(l *mon.Log) interface {
+			MoveNext() bool
+			Current() seq.Iterator[int]
+		} {
+			return gens.SpawnString(l, "aé€")
+		}},
+		{"SpawnChan", func(l *mon.Log) interface {
+			MoveNext() bool
+			Current() seq.Iterator[int]
+		} {
+			return gens.SpawnChan(l, 3)
+		}},
+	}
+	drain := func(c seq.Iterator[int]) string {
+		var out []string
+		for c.MoveNext() {
+			out = append(out, fmt.Sprint(c.Current()))
+		}
+		return strings.Join(out, ",")
+	}
+	checked := 0
+	for _, p := range parents {
+		p := p
+		func() {
+			defer func() {
+				if pv := recover(); pv != nil {
+					res.Violate("spawn:"+p.name, "spawn-scenario-panicked", fmt.Sprintf("parent %s / its children panicked: %v", p.name, pv), nil)
+				}
+			}()
+			records := map[string][]string{}
+			// (a) at once
+			{
+				g := p.mk(&mon.Log{})
+				for g.MoveNext() {
+					records["at-once"] = append(records["at-once"], drain(g.Current()))
+				}
+			}
+			collect := func() []seq.Iterator[int] {
+				var kids []seq.Iterator[int]
+				g := p.mk(&mon.Log{})
+				for g.MoveNext() {
+					kids = append(kids, g.Current())
+				}
+				return kids
+			}
+			// (b) after the parent finished, in order
+			for _, k := range collect() {
+				records["deferred"] = append(records["deferred"], drain(k))
+			}
+			// (c) reverse order
+			{
+				kids := collect()
+				out := make([]string, len(kids))
+				for i := len(kids) - 1; i >= 0; i-- {
+					out[i] = drain(kids[i])
+				}
+				records["reverse"] = out
+			}
+			// (d) round-robin: the parent is advanced between the advances of the children
+			{
+				g := p.mk(&mon.Log{})
+				var kids []seq.Iterator[int]
+				var outs [][]string
+				more := true
+				for more || len(kids) > 0 {
+					if more {
+						if more = g.MoveNext(); more {
+							kids = append(kids, g.Current())
+							outs = append(outs, nil)
+						}
+					}
+					live := false
+					for i, k := range kids {
+						if k == nil {
+							continue
+						}
+						if k.MoveNext() {
+							outs[i] = append(outs[i], fmt.Sprint(k.Current()))
+							live = true
+						} else {
+							kids[i] = nil
+						}
+					}
+					if !more && !live {
+						break
+					}
+				}
+				for _, o := range outs {
+					records["round-robin"] = append(records["round-robin"], strings.Join(o, ","))
+				}
+			}
+			want := strings.Join(records["at-once"], "|")
+			for _, order := range []string{"deferred", "reverse", "round-robin"} {
+				res.Eval(1)
+				checked++
+				if got := strings.Join(records[order], "|"); got != want {
+					id := "spawn:" + p.name + ":" + order
+					res.Violate(id, "child-depends-on-parent-progress", fmt.Sprintf("children of %s consumed %s yield %v, consumed at once they yield %v", p.name, order, records[order], records["at-once"]), map[string]any{"probe": "schedmon", "only": id})
+				}
+			}
+			if len(records["at-once"]) < 3 {
+				res.Violate("spawn:"+p.name, "spawn-workload-too-small", fmt.Sprintf("parent %s produced only %d children", p.name, len(records["at-once"])), nil)
+			}
+		}()
+	}
+	return checked
 }
 
 // parallel consumption on goroutines (run under -race)
